@@ -2,7 +2,7 @@
    message corruption.  Only statements closed by [exact] + Print Assumptions. *)
 From Coq Require Import NArith List Bool.
 From Mpc Require Import Base.Label Base.Codec Circuit.Circuit Circuit.Garble
-     Proto.Session Proto.SessionProof.
+     Proto.Session Proto.SessionProof Proto.Conn Proto.ConnProof Proto.SessionRx Proto.SessionRxProof.
 Import ListNotations.
 
 (* Whatever label list reaches the garbler (arbitrary corruption of either
@@ -53,3 +53,48 @@ Theorem C16_gate_count_check :
     evaluator_first c (MData key :: MU32 cnt :: rest) = None.
 Proof. exact gate_count_check. Qed.
 Print Assumptions C16_gate_count_check.
+
+(* BYTE LEVEL (composition with the connection layer of C11).  For every block-
+   function family, randomness, key, circuit and inputs, and for EVERY byte string
+   [bytes] that reaches the garbler after the OT — whoever produced it — read
+   through p2p.Conn with any buffer size >= 16 under EVERY read fragmentation, with
+   or without EOF delivered together with data: if the garbler's result loop
+   returns bits, then at least 16 * noutputs bytes arrived and for each output i
+   either the bit is the correct one and the i-th 16-byte block of the stream IS
+   the honest label, or the bit is wrong and that block is the honest label xor R
+   (the value C04 shows is never transmitted).  Corrupting any byte of a returned
+   label therefore yields an error unless it produces exactly that forgery. *)
+Theorem C16_bytes_wrong_implies_forgery :
+  forall (pi_of_key : list N -> N -> N) (rcap : N) (rnd : nat -> N) (key : list N) (scratch : list wire)
+         (c : circ2) (x y : list bool) (bytes frags : list N) (eofdata : bool) (bits : list bool),
+    (16 <= rcap)%N -> wf2 c = true -> length x = n0 c -> length y = n1 c ->
+    let g := garble (pi_of_key key) rnd scratch (cc c) in
+    snd (garbler_rx_result rcap c g (r_init (mkT bytes frags eofdata 0))) = Some bits ->
+    (16 * noutputs (cc c) <= length bytes)%nat /\ length bits = noutputs (cc c) /\
+    forall i, (i < noutputs (cc c))%nat ->
+      let honest := pick (nth i (out_wires c g) w0) (nth i (eval_plain (cc c) (x ++ y)) false) in
+      (nth i bits false = nth i (eval_plain (cc c) (x ++ y)) false /\ block16 i bytes = honest) \/
+      (nth i bits false <> nth i (eval_plain (cc c) (x ++ y)) false /\
+       block16 i bytes = lxor honest (gR g)).
+Proof. exact garbler_rx_result_sound. Qed.
+Print Assumptions C16_bytes_wrong_implies_forgery.
+
+(* a truncated stream (fewer than 16 * noutputs bytes ever arrive) is an error,
+   never a value — under every fragmentation *)
+Theorem C16_bytes_short_is_error :
+  forall (rcap : N) (c : circ2) (g : garbled) (bytes frags : list N) (eofdata : bool),
+    (16 <= rcap)%N -> (length bytes < 16 * noutputs (cc c))%nat ->
+    snd (garbler_rx_result rcap c g (r_init (mkT bytes frags eofdata 0))) = None.
+Proof. exact garbler_rx_short_is_error. Qed.
+Print Assumptions C16_bytes_short_is_error.
+
+(* the OT query at the byte level: whatever 8 bytes arrive, the garbler goes on
+   to the OT only when they are exactly (n0, n1) big endian *)
+Theorem C16_bytes_query :
+  forall (rcap : N) (c : circ2) (bytes frags : list N) (eofdata : bool),
+    (16 <= rcap)%N ->
+    snd (garbler_rx_query rcap c (r_init (mkT bytes frags eofdata 0))) = Some true ->
+    (8 <= length bytes)%nat /\
+    of_be (firstn 4 bytes) = N.of_nat (n0 c) /\ of_be (firstn 4 (skipn 4 bytes)) = N.of_nat (n1 c).
+Proof. exact garbler_rx_query_sound. Qed.
+Print Assumptions C16_bytes_query.
